@@ -43,7 +43,8 @@ CLAIMED['C09'] = dict(
         'GeoBox circle is proved to enclose exactly the corners not farther than the NW corner (finding D10). Tied to the code by an in-Coq '
         'correspondence with the implementation own distances as order-preserving integers. NOT decided by proof and exercised on fixed '
         'corpora only: the Welzl polygon circle (correctness, minimality, RNG-seed independence; finding D22), the 1% figure for curved '
-        'bounds (finding D21 for wedges across +-180), 1e-6 enclosure for circle/ellipse/ring circles.',
+        'bounds (finding D21 for wedges across +-180). The circumscribing circles of circles, ellipses and full rings are proved (over the reals, from the C03 '
+        'on-curve theorems) to contain every generated boundary point for every k, with the ellipse radius attained; their float evaluation is exercised on a fixed corpus.',
    note='Trusted: Coq kernel + vm_compute; hand statement that BoundsM mirrors the min/max and max-distance expressions (checked by '
         'correspondence); harness; IEEE doubles compared through their order-preserving bit image. No axioms.',
    technique='Coq proof (min/max folds, farthest-point circle for an abstract metric) + in-Coq correspondence; fixed corpora for unclaimed clauses + translator tie (bounds, circumscribing rectangles, centroid+farthest-vertex circles: 18 GenEq lemmas)',
